@@ -14,7 +14,7 @@ SPEC = os.path.join(VERIF, "spec")
 WORK = os.path.join(VERIF, "work")
 EVID = os.path.join(VERIF, "evidence")
 REPLAYS = os.path.join(VERIF, "replays")
-REPO = os.environ.get("VERIF_REPO", "/repo")      # (only the seed sandbox of tools_seed_sandbox.sh overrides this)
+REPO = os.environ.get("VERIF_REPO", "/repo")      # (only the seed sandbox of devtools/tools_seed_sandbox.sh overrides this)
 BIN = os.environ.get("VERIF_BIN", os.path.join(HARNESS, "target", "debug"))   # (override: coverage builds only)
 
 TLC_JAR = "/opt/veriftools/tla/tla2tools.jar"
